@@ -216,12 +216,15 @@ def u_fragments(c):
     compressed = c.choose("compressed", [False, True])
     gaps = c.choose("in-the-gaps", ["nothing", "ping", "pong", "ping+pong", "ping-with-125-bytes"])
     then = c.choose("followed-by", ["nothing", "another-message"])
+    first_empty = c.choose("first-fragment", ["non-empty", "empty"])
     msg = payload(5000, "text" if kind == "text" else "bin")
     raw = msg.encode("utf-8") if kind == "text" else msg
     rd = H.RefDeflate()
     body = rd.compress(raw) if compressed else raw
     size = max(1, len(body) // nfrag)
     parts = [body[i * size:(i + 1) * size] for i in range(nfrag - 1)] + [body[(nfrag - 1) * size:]]
+    if first_empty == "empty":
+        parts = [b""] + parts           # a fragmented message may open with an empty frame
     wire, want_pings, want_pongs = b"", [], []
     for i, p in enumerate(parts):
         wire += H.enc_frame((1 if kind == "text" else 2) if i == 0 else 0, p, fin=(i == len(parts) - 1), rsv=(4 if compressed and i == 0 else 0), mask=bytes([i + 1, 2, 3, 4]))
